@@ -231,6 +231,55 @@ def lazy_fact(src):
             visit(fn.body, set())
     return state["ok"], len(lazy)
 
+# ----------------------------------------------------------------------------- shared-state inventory
+INV_MUT = {"append", "extend", "update", "add", "insert", "setdefault", "pop", "remove", "clear", "popitem", "discard", "appendleft"}
+INV_CTORS = {"dict", "list", "set", "OrderedDict", "defaultdict", "deque", "Counter"}
+def is_mutable_init(v):
+    if isinstance(v, (ast.Dict, ast.List, ast.Set)):
+        return True
+    return isinstance(v, ast.Call) and getattr(v.func, "id", getattr(v.func, "attr", "")) in INV_CTORS
+def shared_state_inventory(repo):
+    out = set()
+    for path in sorted(glob.glob(os.path.join(repo, "dateparser/**/*.py"), recursive=True)):
+        rel = os.path.relpath(path, repo)
+        if "/data/" in rel or rel.endswith("timezones.py"):
+            continue
+        tree = ast.parse(open(path, encoding="utf-8").read())
+        mod = rel[:-3].replace("/", ".")
+        classes = {n.name for n in tree.body if isinstance(n, ast.ClassDef)}
+        # names mutated anywhere inside functions of this module (subscript store / mutator call / global rebinding)
+        mutated, globs = set(), set()
+        for fn in ast.walk(tree):
+            if isinstance(fn, (ast.FunctionDef, ast.AsyncFunctionDef)):
+                for x in ast.walk(fn):
+                    if isinstance(x, ast.Global):
+                        globs.update(x.names)
+                    if isinstance(x, ast.Subscript) and isinstance(x.ctx, (ast.Store, ast.Del)):
+                        mutated.add(ast.unparse(x.value).split("[")[0])
+                    if isinstance(x, ast.Call) and isinstance(x.func, ast.Attribute) and x.func.attr in INV_MUT:
+                        mutated.add(ast.unparse(x.func.value).split("[")[0])
+                for d in fn.decorator_list:
+                    dn = ast.unparse(d)
+                    if "lru_cache" in dn or dn.split("(")[0].split(".")[-1] in ("cache", "cached_property"):
+                        out.add("%s:%s@%s" % (mod, fn.name, dn.split("(")[0].split(".")[-1]))
+        for g in globs:
+            out.add("%s:global %s" % (mod, g))
+        for n in tree.body:
+            if isinstance(n, ast.Assign) and len(n.targets) == 1 and isinstance(n.targets[0], ast.Name):
+                name = n.targets[0].id
+                if is_mutable_init(n.value) and name in mutated:
+                    out.add("%s:%s (mutated container)" % (mod, name))
+                if isinstance(n.value, ast.Call) and isinstance(n.value.func, ast.Name) and (n.value.func.id[:1].isupper() or n.value.func.id in classes) and n.value.func.id not in ("OrderedDict", "Path"):
+                    out.add("%s:%s = %s()" % (mod, name, n.value.func.id))
+            if isinstance(n, ast.ClassDef):
+                for c in n.body:
+                    if isinstance(c, ast.Assign) and len(c.targets) == 1 and isinstance(c.targets[0], ast.Name) and is_mutable_init(c.value):
+                        nm = c.targets[0].id
+                        empty = not (getattr(c.value, "keys", None) or getattr(c.value, "elts", None) or getattr(c.value, "args", None))
+                        if empty or any(m.endswith("." + nm) or m == nm for m in mutated):
+                            out.add("%s:%s.%s (class-level container)" % (mod, n.name, nm))
+    return sorted(out)
+
 # ----------------------------------------------------------------------------- constants
 def gen_consts():
     L = []
@@ -454,6 +503,8 @@ def gen_consts():
 
     _o, _lld, _lm, _infos = load_lang_infos()
     SL("langsWithoutDateOrder", sorted(n for n, i in _infos.items() if "date_order" not in i), "data/date_translation_data: languages whose data has no date_order of its own")
+
+    SL("sharedStateInventory", shared_state_inventory(REPO), "process-wide mutable state of the package (outside the data modules): module-level singletons, `global` names, class-level containers, mutated module-level containers, functools caches")
 
     sp = Src("dateparser/utils/strptime.py")
     RX("reTimeMatcher", regex_of(sp.assign("TIME_MATCHER")), "utils/strptime.py TIME_MATCHER")
